@@ -684,6 +684,11 @@ class ExcelCompiler:
                     for addr in cell.needed_addresses:
                         if addr not in verified:  # pragma: no branch
                             to_verify.append(addr)
+                    if isinstance(cell, _CellRange) and cell.formula:
+                        # the cells of an array formula hold stored results
+                        for addr in cell:
+                            if addr not in verified:
+                                to_verify.append(addr)
             except Exception as exc:
                 if raise_exceptions:
                     raise
